@@ -1608,7 +1608,7 @@ class Frame:
                         return [(p, Const("".join(i_.v for i_ in items)))]
                     return [(p, Sym("fstr", tuple(items)))]
             rc = getattr(self.ctx, "sym_self_cls", None)
-            if rc is not None and isinstance(recv, Sym) and recv.head == "self" and not recv.args and mname not in self.ctx.no_inline:
+            if rc is not None and isinstance(recv, Sym) and recv.head == "self" and not recv.args and mname not in self.ctx.no_inline and mname not in XOPS:
                 # a method of a plain (non-node) class analysed with a symbolic self: inline its private methods
                 r = rc.find_method(mname)
                 if r is not None and not any(ast.unparse(d) in ("property", "classmethod") for d in r[1].decorator_list):
